@@ -171,7 +171,7 @@ FIXED = [
 
 def make_texts(ctx):
     r = ctx['rng']
-    n = 8000 if ctx['tier'] == 'thorough' else 1000
+    n = 8000 if ctx['tier'] == 'thorough' else 1500
     out = [t.encode() for t in FIXED]
     for _ in range(n):
         g = G(r)
